@@ -273,6 +273,10 @@ func checkC18(c *Ctx) {
 		rdv.Check(okw, name, "store:Statement.Context", st.Pos, "Session stores the caller-supplied, non-nil Session.Context on its cloned statement", "Statement.Context is overwritten with "+strings.Join(paths, "|")+" outside the Session(Context) path")
 	}
 
+	// a Session with its own Context stores it on a statement private to the derived handle: writing it
+	// into the statement still shared with the parent would re-bind every later operation of the parent
+	checkSessionStores(c, rdv, map[string]bool{"Context": true})
+
 	// ---- C18.sessions ----
 	rse := c.Rule("C18.sessions", "Session literals in library code that set Context use Statement.Context of the handle they are applied to (or an API context parameter)", 4)
 	dbT := p.Named(pkgGorm, "DB")
